@@ -594,8 +594,9 @@ fn mapping_atomic_applicable_member_types_inner(
                 }
             }
 
-            let is_subtype = member_types.len() == atomic.vs.len();
-            if !is_subtype
+            // the index signature contributes exactly when some requested key is not a declared property
+            let all_keys_declared = values.iter().all(|l| atomic.vs.contains_key(l));
+            if !all_keys_declared
                 && let Some(v) = &atomic.indexed_properties
                 && v.key.is_all_strings()
             {
